@@ -68,6 +68,40 @@ func c18a(c *Ctx) {
 						inInput = true
 					}
 				}
+				if !(rune65533 && width1 && inInput) {
+					// the rune and its width decoded by a helper: each is either what
+					// DecodeRuneInString reports inside the input, or a constant that cannot
+					// satisfy the test
+					instrs(fn, func(in2 ssa.Instruction) {
+						ex, ok := in2.(*ssa.Extract)
+						if !ok {
+							return
+						}
+						lit := "+(" + c.term(fn, ex) + " == " + map[int]string{0: "65533", 1: "1"}[ex.Index] + ")"
+						if ex.Index > 1 || !hasLit(must, lit) {
+							return
+						}
+						okAlts := true
+						sawDecode := false
+						for _, a := range c.resultAlts(fn, ex) {
+							switch {
+							case strings.HasPrefix(a.term, "unicode/utf8.DecodeRuneInString($0.input[$0.readPosition:])#") && hasLit(a.must, "+($0.readPosition < builtin:len($0.input))"):
+								sawDecode = true
+							case a.term == "0":
+							default:
+								okAlts = false
+							}
+						}
+						if okAlts && sawDecode {
+							if ex.Index == 0 {
+								rune65533 = true
+							} else {
+								width1 = true
+							}
+							inInput = true
+						}
+					})
+				}
 				c.Check(rune65533 && width1 && inInput, "readChar/panic-only-for-invalid-utf8", c.W.Pos(x.Pos()), "the panic requires RuneError with width 1, i.e. an invalid encoding", fmt.Sprintf("the lexer panic is guarded by %v; it must require the decoded rune to be RuneError AND the width to be 1 (a correctly encoded U+FFFD also decodes to RuneError)", must))
 			case *ssa.TypeAssert:
 				if !x.CommaOk {
@@ -95,11 +129,9 @@ func c18a(c *Ctx) {
 	if fn := c.Fn("lexer.Lexer.readChar"); fn != nil {
 		ok := false
 		for _, st := range storesToField(fn, "lexer", "Lexer", "ch") {
-			if ph, isPhi := st.Val.(*ssa.Phi); isPhi {
-				for i, e := range ph.Edges {
-					if k, isC := intConst(e); isC && k == 0 && hasLit(c.edgeMust(fn, ph.Block().Preds[i], ph.Block()), "-($0.readPosition < builtin:len($0.input))") {
-						ok = true
-					}
+			for _, a := range c.resultAlts(fn, st.Val) {
+				if a.term == "0" && hasLit(a.must, "-($0.readPosition < builtin:len($0.input))") {
+					ok = true
 				}
 			}
 		}
@@ -1245,6 +1277,47 @@ func c18g(c *Ctx) {
 	// readChar outside a loop, or of another such method, lies on every path (fixpoint)
 	mustConsume := lexerMustConsume(c, rc)
 	stripVer := func(s string) string { return regexpMust(`![A-Za-z0-9@_]+`).ReplaceAllString(s, "") }
+	// freeConds: the conditions (on the state at entry) of the paths through a reader that
+	// reach a return without reading; nil when it cannot be computed or the reader changes the
+	// lexer other than by reading
+	freeConds := func(g *ssa.Function) []conj {
+		if len(g.Blocks) == 0 || !c.W.InRepo(g) || c.W.PkgShort(g) != "lexer" {
+			return nil
+		}
+		direct := false
+		instrs(g, func(x ssa.Instruction) {
+			if st, ok := x.(*ssa.Store); ok {
+				if _, local := rootValue(st.Addr).(*ssa.Alloc); !local {
+					direct = true
+				}
+			}
+		})
+		if direct {
+			return nil
+		}
+		reads := func(x ssa.Instruction) bool {
+			ci, ok := x.(ssa.CallInstruction)
+			if !ok {
+				return false
+			}
+			h := callee(ci)
+			return h != nil && (h == rc || mustConsume[h])
+		}
+		out := []conj{}
+		for _, r := range returnsOf(g) {
+			cs := unconsumedConds(c, g, r.Block(), reads, true)
+			if cs == nil {
+				return nil
+			}
+			for _, cj := range cs {
+				if len(cj) == 0 {
+					return nil // an unconditional way of reading nothing
+				}
+				out = append(out, cj)
+			}
+		}
+		return out
+	}
 	// which reader calls are guaranteed to read at least one character
 	guaranteed := map[ssa.Instruction]string{}
 	for _, ci := range callsIn(fn) {
@@ -1264,7 +1337,7 @@ func c18g(c *Ctx) {
 		default:
 			guards, ok := readersFirstIter[g.Name()]
 			if !ok {
-				continue
+				guards = nil
 			}
 			d := c.PC(fn).At(in.Block())
 			var conjs []conj
@@ -1307,9 +1380,41 @@ func c18g(c *Ctx) {
 				}
 				return true
 			}
-			all := (len(conjs) > 0 && guarded(conjs)) || (restricted != nil && guarded(restricted))
+			all := len(guards) > 0 && ((len(conjs) > 0 && guarded(conjs)) || (restricted != nil && guarded(restricted)))
 			if all {
 				guaranteed[in] = "entry test implies the guard of " + g.Name() + "'s loop"
+			} else if free := freeConds(g); free != nil && g.Signature.Recv() != nil && c.term(fn, ci.Common().Args[0]) == "$0" {
+				// every way through the reader that reads nothing (leaving at its first test)
+				// contradicts every way of reaching the call without having read
+				contra := func(a, b conj) bool {
+					for _, l := range a {
+						for _, m := range b {
+							if l[0] != m[0] && stripVer(l[1:]) == stripVer(m[1:]) {
+								return true
+							}
+							if strings.HasPrefix(stripVer(m), "-unicode.IsDigit($0.ch") && strings.HasPrefix(l, "+($0.ch") {
+								var k int
+								if _, err := fmt.Sscanf(l[strings.LastIndex(l, " == ")+4:], "%d)", &k); err == nil && k >= 48 && k <= 57 {
+									return true
+								}
+							}
+						}
+					}
+					return false
+				}
+				excl := func(cs []conj) bool {
+					for _, cj := range cs {
+						for _, fj := range free {
+							if !contra(cj, fj) {
+								return false
+							}
+						}
+					}
+					return true
+				}
+				if (len(conjs) > 0 && excl(conjs)) || (restricted != nil && len(restricted) > 0 && excl(restricted)) {
+					guaranteed[in] = "the entry test excludes every path of " + g.Name() + " that reads nothing"
+				}
 			}
 		}
 	}
@@ -1458,7 +1563,7 @@ func indexSepLen(t string) int {
 // unconsumedConds: the reaching conditions of block b restricted to the paths from the
 // function entry on which no instruction satisfying isCons was executed before b (nil when
 // it cannot be computed). An empty, non-nil result means every path has consumed already.
-func unconsumedConds(c *Ctx, fn *ssa.Function, b *ssa.BasicBlock, isCons func(ssa.Instruction) bool) []conj {
+func unconsumedConds(c *Ctx, fn *ssa.Function, b *ssa.BasicBlock, isCons func(ssa.Instruction) bool, keepLoopExit ...bool) []conj {
 	pc := c.PC(fn)
 	t := c.T(fn)
 	cond := map[*ssa.BasicBlock][]conj{}
@@ -1492,7 +1597,10 @@ func unconsumedConds(c *Ctx, fn *ssa.Function, b *ssa.BasicBlock, isCons func(ss
 				continue // everything that continues from p has consumed
 			}
 			eds := pc.edgeDNF(p, x)
-			if isLoopHeader(p) && !loopBody(p)[x] {
+			if isLoopHeader(p) && !loopBody(p)[x] && len(keepLoopExit) == 0 {
+				// the exit test was made in a later iteration: it says nothing at entry (unless
+				// the caller counts every pass through the body as consuming, so that an
+				// unconsumed exit is the exit of the very first test)
 				eds = []conj{{}}
 			}
 			for _, cj := range cond[p] {
